@@ -90,8 +90,10 @@ Print Assumptions C13_x86_epilogue_restores_callee_saved.
 (*  - entry/exit: prologue and epilogue balanced, every access aligned, the epilogue reloads   *)
 (*    X19-X29 and X30 in mirror order; on the ISA model the epilogue restores them and SP from *)
 (*    any state that kept the body's SP and the saved cells (C13_a64_entry_exit).              *)
-(* NOT proved: that the BODY between prologue and epilogue keeps SP and the saved cells for    *)
-(* every program (whole-program simulation, the gap of C07); checked by execution.             *)
+(*  - whole programs: C13_a64_program_sp_discipline (SP aligned at every stack access and   *)
+(*    print call of every compiled program, SP only moved inside print brackets).             *)
+(* NOT proved: that the BODY between prologue and epilogue keeps the saved CELLS for every    *)
+(* program (whole-program simulation, the gap of C07); checked by execution.                   *)
 (* ======================================================================================== *)
 From Coq Require Import String.
 Open Scope list_scope.
@@ -249,6 +251,32 @@ Theorem C13_a64_entry_exit :
           A64Sem.heap s3 = A64Sem.heap s2 /\ A64Sem.out s3 = A64Sem.out s2 /\ A64Sem.stack s3 = A64Sem.stack s2.
 Proof. exact A64Entry.a64_entry_exit_ok. Qed.
 Print Assumptions C13_a64_entry_exit.
+
+(* WHOLE PROGRAMS (model level).  For every program the model compiles, the routine is
+   preamble ++ prologue ++ body ++ epilogue where: the prologue keeps SP 16-byte aligned at each of its
+   stores, moves it by a multiple of 16 and contains no label or branch; in the BODY (all code of all
+   definitions) SP is written only inside the save/restore bracket of a print sequence, its displacement
+   from the body value is 0 mod 16 at every BL and every SP-relative load/store, and is 0 at every label,
+   branch and RET (`A64SpFlow.sp_disciplined`: so every control transfer leaves and arrives at
+   displacement 0 and the linear walk covers every execution path); the epilogue is aligned and balanced.
+   Hence on AArch64 SP is 16-byte aligned at EVERY stack access and at every call of the print runtime, in
+   every compiled program, for every number of live variables.  Proof: Proof/CodegenForall.v (every
+   piece of code of code_statement comes from a back-end method, by induction over statements) +
+   Proof/A64SpFlow.v (every method other than print emits SP-neutral instructions: instruction
+   selection, immediates, parallel moves, share/erase, store/load of closures with their recursion).
+   Instance: Example A64SpFlow.a64_routine_sp_discipline_instance. *)
+From SCC Require Proof.A64SpFlow.
+Theorem C13_a64_program_sp_discipline :
+  forall (p : AxSyn.prog) (lc : N) (r : list A64.acode) (n : nat) (lc' : N),
+    A64.a64_compile p lc = Backend.Ok (r, n, lc') ->
+    exists s body,
+      r = A64.preamble ++ s ++ body ++ A64.cleanup /\ A64.setup n = Backend.Ok s /\
+      A64SpFlow.sp_disciplined A64.preamble /\
+      (A64Wf.sp_delta s mod 16 = 0 /\ A64Wf.sp_safe 0 s /\ Forall (fun c => A64SpFlow.is_control c = false) s) /\
+      A64SpFlow.sp_disciplined body /\
+      (A64Wf.sp_delta s + A64Wf.sp_delta A64.cleanup = 0 /\ A64Wf.sp_safe (A64Wf.sp_delta s) A64.cleanup).
+Proof. exact A64SpFlow.a64_routine_sp_discipline. Qed.
+Print Assumptions C13_a64_program_sp_discipline.
 
 (* RISC-V: the back end has NO print runtime call (print_i64 is a panic 'not implemented in RISC-V
    backend', modelled by rv_compile answering Err for every program with a print) and NO
